@@ -251,6 +251,7 @@ use super::*;
 //@   before "arms.push(ConstraintValArm::Range(bound));" <<<
                     proof {
                         let c = width(arm_types@, it2.index as int) as int;
+                        assert(range_bound(*start_val, *end_val) == Some(bound));
                         assert(start_val == vals[c].0 && end_val == vals[c + 1].0);
                         lemma_arm_step(arm_types@, vals, arms@, ConstraintValArm::Range(bound), it2.index as int);
                     }
